@@ -32,9 +32,9 @@ type seqCase struct {
 }
 
 func (c01) Cases(tier string, seed uint64) []core.Case {
-	n := 96
+	n := 480
 	if tier == "thorough" {
-		n = 4000
+		n = 16000
 	}
 	r := core.NewRng(core.Mix(seed, 0xC01))
 	cfgs := core.CoverConfigs(r, n)
